@@ -1,3 +1,8 @@
+// Copies the client binary's source into OUT_DIR, neutralising `//!` inner doc comments (rustc
+// rejects them inside include!) and routing process termination written with a fully qualified
+// path (`std::process::exit(..)`, `use std::process;`) through the simulated process: a real
+// exit inside a simulated execution would end the execution's host process instead of the
+// simulated one. Nothing else is changed.
 use std::{env, fs, path::Path};
 
 fn main() {
@@ -7,6 +12,7 @@ fn main() {
     let out: String = text
         .lines()
         .map(|l| if l.trim_start().starts_with("//!") { l.replacen("//!", "// ", 1) } else { l.to_string() })
+        .map(|l| if l.contains("cfg(") { l } else { l.replace("::std::process::exit", "verif_std::process::exit").replace("std::process::exit", "verif_std::process::exit").replace("use std::process;", "use verif_std::process;") })
         .collect::<Vec<_>>()
         .join("\n");
     let dst = Path::new(&env::var("OUT_DIR").unwrap()).join("client_bin.rs");
